@@ -200,7 +200,7 @@ def out_post(rate):
 for rate in ('audio', 'control', 'scalar'):
     contract(FI, 'AbstractOut._check_inputs', props=('C02',), params={'self': 'self'},
              ensures=[('first-non-audio-signal-input-named;missing-input-reported;else-generic-check', out_post(rate))],
-             loops={0: Loop(inv=out_inv, kinds={'i': 'int'})},
+             loops={0: Loop(early_exit=True, inv=out_inv, kinds={'i': 'int'})},
              modifies=[], fields={'AbstractOut': {'rate': 'const:%r' % rate, 'inputs': o_inputs_kind}},
              hooks={'getattr': o_getattr, 'compare': o_compare},
              policies={G + '::ugen_param': o_ugen_param, 'AbstractOut._num_fixed_args': fixed_args,
